@@ -76,9 +76,14 @@ class Check:
         return True
 
     def floor(self, rule, name, count, minimum):
+        """Vacuity guard.  `minimum` is the number of instances confirmed by hand when the rule was written; the check
+        fails closed only when fewer than about half of them are left (a rule that matches nothing passes forever),
+        not when an ordinary change removes a few instances."""
+        self.extra_cov.setdefault('instance_counts', {})['%s: %s' % (rule, name)] = {'found': count, 'confirmed': minimum}
+        minimum = max(1, (minimum + 1) // 2)
         if count < minimum:
             self.fail(rule, self.key(rule, 'count-below-floor', name),
-                      'instance count of %s is %d, below the hand-confirmed floor %d '
+                      'instance count of %s is %d, below half of the hand-confirmed count (floor %d) '
                       '(rule would pass vacuously; failing closed)' % (name, count, minimum))
             return False
         return True
